@@ -34,6 +34,7 @@ type VerifyOpts struct {
 	NoFrame     bool
 	SafetyOnly  bool // ignore functional clauses (sweep mode)
 	ParamInvs   map[string]string // parameter type string -> invariant expression over `$p` (assumed at entry, kept as loop invariant)
+	NoAssume    func(name, kind string) bool // obligations not claimed by the running check: never assumed afterwards
 }
 
 func (e *Engine) GenVC(fn *ssa.Function, opts VerifyOpts) (res *FuncVC) {
@@ -44,6 +45,7 @@ func (e *Engine) GenVC(fn *ssa.Function, opts VerifyOpts) (res *FuncVC) {
 	vc.callCount = map[string]int{}
 	vc.noFrame = opts.NoFrame
 	vc.paramInvs = opts.ParamInvs
+	vc.noAssume = opts.NoAssume
 	res.vc = vc
 	defer func() {
 		if r := recover(); r != nil {
